@@ -159,6 +159,11 @@ func (fx *FuncExec) oblige(kind string, st *State, goal string, desc string, pos
 	if goal == "true" {
 		ob.Trivial = true
 	}
+	if fx.V.covers && !ob.Trivial && (kind == "step" || kind == "assert@call" || kind == "assert@store" || kind == "assert@return" || kind == "inv-keep" || kind == "dispatch") {
+		// vacuity guard: the place this obligation talks about must be reachable under everything
+		// assumed on the way (a stale fact in the memory model once made a back edge unreachable)
+		defer fx.cover(st, "the site of "+ob.Name+" is reachable", pos)
+	}
 	fx.skolemize(st, ob)
 	ob.prefix = len(fx.em.lines) // hint evaluation may have added definitions
 	ob.Model = map[string]string{}
